@@ -30,6 +30,9 @@ EXPLANATION = (
 
 
 def run(ctx: Ctx):
+    # ownership / table obligations first: they do not depend on the shape of the back-end selection code
+    check_solve_is_read_only(ctx, "C05-O12")
+    check_id_allocation(ctx, "C05-O10")
     ctags, etags = produced_tags(ctx)
     ctx.floor("constraint tags produced by cp.py", len(ctags), 12)
     ctx.floor("expression tags produced by cp.py", len(etags), 4)
@@ -126,9 +129,7 @@ def run(ctx: Ctx):
     check_narrowing(ctx)
     check_exact_division(ctx)
     check_alldiff_coverage(ctx, "C05-O9")
-    check_id_allocation(ctx, "C05-O10")
     check_cumulative_horizon(ctx, "C05-O11")
-    check_solve_is_read_only(ctx, "C05-O12")
     check_constraint_table(ctx, "C05-O13")
     check_small_semantics(ctx, "C05-O14", encoder=True, dfs=True)
     generic_sweeps(ctx, skip_stutter_modules=("solvor/sat.py",))
